@@ -288,8 +288,15 @@ func copyCycleCount(prop string, conn int, c *Case, cs *connState, t *Transcript
 	// with its COPY messages and nothing else
 	var q *pgwire.FMsg
 	aborted := false
+	limit := c.Server.Limit
+	if limit <= 0 {
+		limit = 1 << 24
+	}
 	for i := range msgs {
 		m := &msgs[i]
+		if m.DeclaredBody() > int64(limit) {
+			return nil // an oversized message aborts the COPY earlier than the CopyFail does
+		}
 		switch m.K {
 		case "startup", "p":
 		case "Q":
